@@ -155,6 +155,8 @@ class Extract:
                 inuse.discard(names.pop(p))
 
         op, nwrite = 0, 0
+        inop = set()            # threads currently between a Begin and a Return marker: everything they create,
+        #                         rename or unlink there is done by the store, wherever the file lives
         for idx, e in enumerate(entries):
             n = e["name"]
             if n == "+killed":
@@ -171,16 +173,18 @@ class Extract:
                     parts = p.split("/")[2:]
                     if parts[0] == "B":
                         op, nwrite = int(parts[1]), 0
+                        inop.add(e["pid"])
                         self.steps.append((idx, op, "begin", 0))
                         if e["ret"] != "?":
                             self.events.append({"a": "Begin", "i": op, "kind": parts[2]})
                     elif parts[0] == "E":
+                        inop.discard(e["pid"])
                         self.steps.append((idx, int(parts[1]), "return", 0))
                         if e["ret"] != "?":
                             self.events.append({"a": "Return", "i": int(parts[1]), "ok": parts[2] == "ok"})
                     continue
                 flags = e["args"].split('",', 1)[1] if '",' in e["args"] else ""
-                if not rel(p) or not re.search(r"O_WRONLY|O_RDWR|O_CREAT|O_TRUNC|O_APPEND", flags):
+                if not (rel(p) or e["pid"] in inop) or not re.search(r"O_WRONLY|O_RDWR|O_CREAT|O_TRUNC|O_APPEND", flags):
                     continue
                 self.steps.append((idx, op, "create", 0))
                 if e["ret"] == "?":
@@ -213,7 +217,7 @@ class Extract:
                     self.events.append({"a": "Close", "dir": dn[0], "name": dn[1]})
             elif n in ("rename", "renameat", "renameat2"):
                 s = strs(e["args"])
-                if len(s) < 2 or not (rel(s[0]) or rel(s[1])):
+                if len(s) < 2 or not (rel(s[0]) or rel(s[1]) or e["pid"] in inop):
                     continue
                 self.steps.append((idx, op, "rename", 0))
                 if e["ret"] == "?":
@@ -226,7 +230,7 @@ class Extract:
                 release(s[0])
             elif n in ("unlink", "unlinkat"):
                 s = strs(e["args"])
-                if not s or not rel(s[0]) or e["err"] or e["ret"] == "?":
+                if not s or not (rel(s[0]) or e["pid"] in inop) or e["err"] or e["ret"] == "?":
                     continue
                 dn = nm(s[0])
                 self.events.append({"a": "Unlink", "dir": dn[0], "name": dn[1]})
@@ -338,7 +342,7 @@ class Runner:
                 if l.strip():
                     report.append(json.loads(l))
         res = {"entries": entries, "ex": Extract(entries, d), "report": report, "dir": d, "rd": rd, "rc": p.returncode,
-               "out": p.stdout[-1500:], "plan": plan}
+               "out": p.stdout[:1500] + " ... " + p.stdout[-300:], "plan": plan}
         return res
 
     def done(self, res):
@@ -466,9 +470,9 @@ def run(ctx):
             for pk, res in ex.map(do_base, list(plans)):
                 base[pk] = res
         anyb = next(iter(base.values()))
-        rename_sys = [anyb["entries"][i]["name"] for (i, o, s, k) in anyb["ex"].steps if s == "rename"]
-        if not rename_sys:
-            raise vlib.InfraError("baseline shows no rename onto the target: cannot locate the store protocol: %s" % anyb["ex"].events[:12])
+        rename_sys = [anyb["entries"][i]["name"] for (i, o, s, k) in anyb["ex"].steps if s == "rename"] or ["(none)"]
+        # stage C on the uninjected runs first: if the code does not follow the protocol at all this says so plainly
+        validate(ctx, sdir, "uninjected", traces_base)
         K = max(len([1 for (i, o, s, k) in b["ex"].steps if o == 1 and s not in ("begin", "return")]) for b in base.values())
         ctx.stage("B", syscalls_per_store=K, rename_syscall=rename_sys[0])
 
@@ -494,7 +498,9 @@ def run(ctx):
                 inj.append(x)
                 for attempt in (0, 1):
                     res = rn.run(plans[pk], inject=inj)
-                    ok = landed(res, i, step, k, kill)
+                    # (an injected error must leave a child that still reports; a Go runtime crash means the
+                    #  injection also hit a runtime-internal syscall of another thread -> not a run of the case)
+                    ok = landed(res, i, step, k, kill) and (kill or bool(res["report"]))
                     if ok:
                         break
                     if os.environ.get("VERIF_DEBUG"):
@@ -534,10 +540,12 @@ def run(ctx):
                                     "events": [fmt_ev(e) for e in res["ex"].events][-8:]})
                 rn.done(res)
         ctx.log("B: injected runs %s" % stats)
-        if stats["misplaced"] > max(5, len(work) // 10):
-            raise vlib.InfraError("too many injections did not land on the intended syscall (%d of %d)" % (stats["misplaced"], len(work)))
-        if stats["crash"] < 20 or stats["fail"] < 40:
-            raise vlib.InfraError("too few injected runs executed: %s" % stats)
+        if not ctx.violations:
+            # (when the real code already diverged from the protocol the enumeration cannot be expected to be complete)
+            if stats["misplaced"] > max(5, len(work) // 10):
+                raise vlib.InfraError("too many injections did not land on the intended syscall (%d of %d)" % (stats["misplaced"], len(work)))
+            if stats["crash"] < 20 or stats["fail"] < 40:
+                raise vlib.InfraError("too few injected runs executed: %s" % stats)
 
         # ---- B2: real environment faults (no injection): every Fail(create|write) case of TLC with a real cause
         envstats = env_faults(ctx, rn, ver, cases, large_decoys, traces_inj, distinct)
@@ -551,8 +559,7 @@ def run(ctx):
         ver.close()
 
     # ---- C
-    for name, traces in (("uninjected", traces_base), ("injected", traces_inj)):
-        validate(ctx, sdir, name, traces)
+    validate(ctx, sdir, "injected", traces_inj)
     bad = copy.deepcopy(traces_base[:2])
     for e in bad[0]:
         if e["a"] == "Create":
@@ -678,7 +685,8 @@ def check_report(ctx, ver, res, c, kind, stats=None):
                           "after operation %d (%s, %s) the in-memory configuration is not %s" %
                           (x["i"], kindop, "ok" if ok else "failed: " + x["err"], exp["mem"]), detail)
     if c["crash"] is None and len(rep) != len(plan["ops"]):
-        raise vlib.InfraError("child report incomplete (%d of %d ops) rc=%s: %s" % (len(rep), len(plan["ops"]), res["rc"], res["out"]))
+        raise vlib.InfraError("child report incomplete (%d of %d ops) rc=%s: %s\n%s" % (len(rep), len(plan["ops"]), res["rc"], res["out"],
+                              [e["raw"] for e in res["entries"] if e.get("injected") or e.get("ret") == "?"]))
     # the file as a new process would find it
     cands = [a for a in c["allowed"]]
     if c["final_disk"] not in cands:
@@ -746,7 +754,11 @@ def env_faults(ctx, rn, ver, cases, large_decoys, traces_inj, distinct):
             rep = [x for x in res["report"] if x.get("kind") == "op"]
             got = [x for x in rep if x["i"] == i]
             if not got or got[0]["err"] == "":
-                # the environment fault did not make the store fail: that is the harness's problem unless the store lied
+                # the environment fault did not make the store fail: the harness's problem - unless the code already
+                # left the protocol (e.g. writes the existing target in place, which needs no permission on the directory)
+                if ctx.violations:
+                    rn.done(res)
+                    continue
                 raise vlib.InfraError("environment fault %s did not fail the store: %s" % (env, rep))
             cc = dict(c, fails=[(i, c["fails"][0][1], c["fails"][0][2], got[0]["errno"])])
             check_report(ctx, ver, res, cc, "fail")
@@ -773,7 +785,7 @@ def env_faults(ctx, rn, ver, cases, large_decoys, traces_inj, distinct):
     rn.done(res)
     need = {"movedir", "filedir", "rodir", "fsize"}
     have = {k.split(":")[0] for k in st["kinds"]}
-    if need - have:
+    if need - have and not ctx.violations:
         raise vlib.InfraError("environment faults not exercised: %s" % (need - have))
     return st
 
@@ -838,6 +850,6 @@ def random_kills(ctx, binp, ver, nkills, large_decoys):
             elif lastk == "B":
                 st["new" if fr["match"] == [1] else "old"] += 1
     ctx.log("B3: random kills %s" % st)
-    if st["inflight"] < nkills // 4:
+    if st["inflight"] < nkills // 4 and not ctx.violations:
         raise vlib.InfraError("random kills rarely hit a store in flight: %s" % st)
     return st
